@@ -87,7 +87,9 @@ def as_sequence(eng, st, v, node):
     v = lift(v)
     ty = v.ty
     if isinstance(ty, TList):
-        return SeqView(ops.list_len(v), lambda i, v=v: Val(ty.elem, ops.list_arr(v)[i]), 'list')
+        sv = SeqView(ops.list_len(v), lambda i, v=v: Val(ty.elem, ops.list_arr(v)[i]), 'list')
+        sv.backing = Val(ty, v.t)
+        return sv
     if isinstance(ty, TDict):
         return as_sequence(eng, st, ops.dict_keys(v), node)
     if ty is TStr:
@@ -144,6 +146,8 @@ def _node_attr_val(eng, st, view, name):
 
     def writer(st2, newv, g=g, n=n, suffix=suffix):
         _frame_check(eng, st2, g.t, None, 'write-node-attr-' + suffix, ['nh:' + suffix, 'nv:' + suffix])
+        if suffix == 'bonding':
+            eng.check_bonding_write(st2, newv.t, None)
         st2.heap = st2.heap.set_nattr(g.t, n.t, suffix, newv.t)
     has = st.heap.nhas(g.t, n.t, suffix)
     return has, Val(ty, st.heap.nval(g.t, n.t, suffix), loc=writer)
@@ -290,6 +294,8 @@ def set_item(eng, st, base, key, value, node):
             raise Unsupported('node attribute with a non-constant name')
         suffix, ty = _schema_attr(base.g, name)
         _frame_check(eng, st, base.g.t, node, 'set-node-attr-' + name, ['nh:' + suffix, 'nv:' + suffix])
+        if suffix == 'bonding':
+            eng.check_bonding_write(st, ops.coerce(value, ty).t, node)
         st.heap = st.heap.set_nattr(base.g.t, base.n.t, suffix, ops.coerce(value, ty).t)
         return None
     if isinstance(base, AttrRec):
@@ -440,6 +446,29 @@ def call(eng, st, node, allow_raise):
     return [(st, method_call(eng, st, node, base, name))]
 
 
+def run_events(eng, st, label, node, args, kwargs, res):
+    """Caller-side ghost code attached to a call event: 'ghost = expr' updates and 'assert expr' obligations."""
+    for item in eng.c.on_call.get(label, []):
+        tmp = st.copy()
+        tmp.env['result'] = res
+        for n, v in args.items():
+            tmp.env.setdefault('arg_' + n if not n.startswith('arg') else n, v)
+        for n, v in kwargs.items():
+            if n:
+                tmp.env.setdefault('kw_' + n, v)
+        item = item.strip()
+        if item.startswith('assert '):
+            goal = eng.spec_bool(item[len('assert '):], tmp, eng.entry)
+            st.pc = tmp.pc
+            eng.oblige(st, 'ghost', goal, node, 'at-%s' % label, detail=item[len('assert '):])
+            st.assume(goal)
+        else:
+            tgt, expr = item.split('=', 1)
+            val = eng.spec_expr(expr, tmp, eng.entry)
+            st.pc = tmp.pc
+            st.env[tgt.strip()] = val
+
+
 def _args(eng, st, node):
     if any(isinstance(a, ast.Starred) for a in node.args):
         raise Unsupported('star-args call')
@@ -568,15 +597,8 @@ def apply_contract(eng, st, node, con, allow_raise):
     old_state.heap = before_heap
     for e in con.ensures:
         st.assume(eng.spec_bool(e, post, old_state))
-    # caller-side ghost updates attached to this event
-    for upd in eng.c.on_call.get(label, []):
-        tgt, expr = upd.split('=', 1)
-        tmp = st.copy()
-        tmp.env = dict(st.env)
-        tmp.env['result'] = res
-        for n, v in pre.env.items():
-            tmp.env.setdefault('arg_' + n, v)
-        st.env[tgt.strip()] = eng.spec_expr(expr, tmp, eng.entry)
+    # caller-side ghost code attached to this event
+    run_events(eng, st, label, node, dict(pre.env), {}, res)
     outs.append((st, res))
     return outs
 
@@ -659,6 +681,37 @@ def quantifier(eng, st, gen, kind, old, spec=True):
         if k == len(gen.generators):
             return ops.truthy(eng.ev(gen.elt, sub, spec, old))
         comp = gen.generators[k]
+        # `for n in nodes(G)` / `for k in keys(d)` / `for e in edge_list(G)` in contract text: quantify over the KEY itself
+        # (guarded by membership) instead of over the position in the list — same meaning by the container invariants,
+        # and the solver needs no index-of-key reasoning.
+        if spec and isinstance(comp.iter, ast.Call) and isinstance(comp.iter.func, ast.Name) and \
+                comp.iter.func.id in ('nodes', 'keys', 'edge_list') and comp.iter.func.id not in sub.env:
+            kindname = comp.iter.func.id
+            arg = eng.ev(comp.iter.args[0], sub, spec, old)
+            if kindname == 'nodes':
+                v = z3.Int(fresh_name('qn'))
+                bound.append(v)
+                eng.bound_names.append(v.decl().name())
+                eng.assign(comp.target, Val(TInt, v), sub, gen)
+                member = sub.heap.has_node(arg.t, v)
+            elif kindname == 'keys':
+                v = z3.Const(fresh_name('qk'), arg.ty.key.sort())
+                bound.append(v)
+                eng.bound_names.append(v.decl().name())
+                eng.assign(comp.target, Val(arg.ty.key, v), sub, gen)
+                member = arg.ty.has(arg.t)[v]
+            else:
+                u, w = z3.Int(fresh_name('qu')), z3.Int(fresh_name('qv'))
+                bound.extend([u, w])
+                eng.bound_names.extend([u.decl().name(), w.decl().name()])
+                eng.assign(comp.target, Val(H.T_EDGE, H.T_EDGE.mk(u, w)), sub, gen)
+                member = sub.heap.has_edge(arg.t, u, w)
+            for nm in [n.id for n in ast.walk(comp.target) if isinstance(n, ast.Name)]:
+                eng.qenv[nm] = sub.env[nm]
+            conds = [ops.truthy(eng.ev(c, sub, spec, old)) for c in comp.ifs]
+            rng = z3.And(member, *conds)
+            body = expand(k + 1)
+            return z3.Implies(rng, body) if kind == 'all' else z3.And(rng, body)
         it = eng.ev(comp.iter, sub, spec, old)
         if isinstance(it, PyList):
             parts = []
@@ -710,7 +763,8 @@ def comprehension(eng, st, e, spec, old, kind):
     elt = lift(eng.ev(e.elt, sub, spec, old))
     # safety obligations raised inside are already guarded by 0 <= i < len
     ty = TList(elt.ty)
-    arr = z3.Lambda([i], elt.t)
+    ops.CTX.depth = len(eng.bound_names)
+    arr = ops.mk_array(i, elt.t, 'comp')
     return Val(ty, ty.mk(arr, seq.length))
 
 
@@ -740,7 +794,15 @@ def b_len(eng, st, node, spec=False, old=None):
 
 
 def b_range(eng, st, node, spec=False, old=None):
-    args = [ops.to_int(lift(eng.ev(a, st, spec, old))) for a in node.args]
+    vals = [lift(eng.ev(a, st, spec, old)) for a in node.args]
+    args = []
+    for v in vals:
+        if v.ty is TReal:
+            # range() needs an int: a float raises TypeError; our Real-typed attributes hold ints here (obligation)
+            eng.safety(st, z3.IsInt(v.t), node, 'range-of-int', spec)
+            args.append(z3.ToInt(v.t))
+        else:
+            args.append(ops.to_int(v))
     if len(args) == 1:
         lo, hi = z3.IntVal(0), args[0]
     elif len(args) == 2:
@@ -830,6 +892,8 @@ def b_list(eng, st, node, spec=False, old=None):
         return empty_container(eng, st, node, 'list')
     v = eng.ev(node.args[0], st, spec, old)
     seq = as_sequence(eng, st, v, node)
+    if getattr(seq, 'backing', None) is not None:
+        return seq.backing            # list(xs) of a list-backed iterable: the same sequence value (a snapshot)
     i = z3.Int(fresh_name('l'))
     elt = seq.getter(i)
     if isinstance(elt, tuple):
@@ -838,7 +902,8 @@ def b_list(eng, st, node, spec=False, old=None):
         tt = TTuple(*[x.ty for x in elt])
         elt = Val(tt, tt.mk(*[x.t for x in elt]))
     ty = TList(elt.ty)
-    return Val(ty, ty.mk(z3.Lambda([i], elt.t), seq.length))
+    ops.CTX.depth = len(eng.bound_names)
+    return Val(ty, ty.mk(ops.mk_array(i, elt.t, 'listof'), seq.length))
 
 
 def b_max(eng, st, node, spec=False, old=None):
@@ -945,7 +1010,10 @@ def method_call(eng, st, node, base, name, spec=False, old=None):
         fn = GRAPH_METHODS.get(name)
         if fn is None:
             raise Unsupported('graph method %s' % name)
-        return fn(eng, st, node, base, args, kwargs, spec)
+        res = fn(eng, st, node, base, args, kwargs, spec)
+        if not spec:
+            run_events(eng, st, name, node, {'arg%d' % i: a for i, a in enumerate(args)}, kwargs, res)
+        return res
     if isinstance(base, PyDictConst):
         if name == 'keys':
             return PyList([lift(k) for k in base.d])
@@ -1084,6 +1152,10 @@ def g_add_node(eng, st, node, g, args, kwargs, spec):
             heap = heap.set('nv:' + suffix, z3.Store(arr_v, g.t, z3.Store(arr_v[g.t], n.t, z3.If(has, val, arr_v[g.t][n.t]))))
         heap = heap._store2('rest', g.t, n.t, st.heap.get('rest')[view.g.t][view.n.t])
     for suffix, (has, val) in attrs.items():
+        if suffix == 'bonding' and not z3.is_false(z3.simplify(has)):
+            guard = st.copy()
+            guard.assume(has)
+            eng.check_bonding_write(guard, val.t, node)
         arr_h = heap.get('nh:' + suffix)
         arr_v = heap.get('nv:' + suffix)
         heap = heap.set('nh:' + suffix, z3.Store(arr_h, g.t, z3.Store(arr_h[g.t], n.t, z3.Or(has, arr_h[g.t][n.t]))))
